@@ -71,12 +71,10 @@ def run(prop, tier, seed, t0):
         script_of[t] = os.path.join(work, 'scripts', name + '.txt')
 
     viols = []
-    known = set()
     nlines = 0
     for module, cfg, tag in P.get('validators', []):
         v, k, st, tr, nl = V.validate(traces, module, cfg, work, tag=tag, env=P.get('env'))
         viols += v
-        known |= k
         states += st
         trans += tr
         nlines += nl
@@ -93,6 +91,20 @@ def run(prop, tier, seed, t0):
     model = [v for v in mine if v[0] == 'MODEL']
     if model:
         raise Machinery('trace lines the specification does not model: %s' % sorted(set(m[1] for m in model))[:5])
+
+    # named deviations (kind "KF:<key>"): a listed key is a known finding,
+    # an unlisted one is a violation like any other
+    kf = V.load_known()
+    listed = {e['key']: e for e in kf.get('findings', [])}
+    known = {}
+    rest = []
+    for v in mine:
+        key = v[1][3:] if v[1].startswith('KF:') else None
+        if key is not None and key in listed and listed[key]['property'] in tags:
+            known.setdefault(key, []).append(v)
+        else:
+            rest.append(v)
+    mine = rest
 
     nviol = 0
     out_lines = []
@@ -116,12 +128,9 @@ def run(prop, tier, seed, t0):
             out_lines.append('VIOLATION property=%s replay=%s' % (prop, d))
             log('  -> %s %s (%s line %d)' % (p, kind, os.path.basename(trace), line))
 
-    kf = V.load_known()
     for k in sorted(known):
-        ent = [e for e in kf.get('findings', []) if e['key'] == k]
-        what = ent[0]['what'] if ent else k
-        pid = ent[0]['property'] if ent else prop
-        out_lines.append('KNOWN-FINDING: property=%s %s [%s]' % (pid, what, k))
+        ent = listed[k]
+        out_lines.append('KNOWN-FINDING: property=%s %s [%s; %d occurrences in this run]' % (ent['property'], ent['what'], k, len(known[k])))
 
     evals, distinct, samples, per_event = V.trace_census(traces, V.nontrivial_result)
     if not samples:
